@@ -1291,6 +1291,7 @@ pub const DANGLING_KINDS: [&str; 9] = [
     "branch", "cbranch_target", "cbranch_fall", "call_target", "call_return", "callext_return", "callind_return",
     "callother_return", "hints",
 ];
+pub const UAF_VARIANTS: [&str; 5] = ["deep2", "deep3", "double", "sibling", "twoobjects"];
 pub const DIVERGE_CHECKS: [&str; 9] = ["CWE367", "CWE476", "CWE416", "CWE119", "CWE252", "CWE337", "CWE78", "CWE190", "CWE243"];
 
 impl<'a> Gen<'a> {
@@ -2135,6 +2136,10 @@ impl Recipe {
         let kind = Recipe::random_kind(rng);
         Recipe::special(&format!("{}:{}", variant, c), kind, rng.next())
     }
+    /// … use after free / double free with the free several call levels deep / in sibling chains / two objects
+    pub fn always_uaf() -> Vec<Recipe> {
+        UAF_VARIANTS.iter().enumerate().map(|(i, v)| Recipe::special(&format!("uaf:{}", v), [Kind::Pie, Kind::Exec][i % 2], 8000 + i as u64)).collect()
+    }
     pub fn random_deep_chain(rng: &mut Rng) -> Recipe {
         let kind = Recipe::random_kind(rng);
         Recipe::special("deep_chain", kind, rng.next())
@@ -2355,6 +2360,99 @@ pub fn gen_special(rng: &mut Rng, kind: Kind, name: &str) -> Input {
                 blocks.push(BlockG { ins: c, suffix: None });
             }
             funcs.push(FuncG { name: "exported_worker".into(), blocks, shared: vec![], cconv: Some("__stdcall"), no_blocks: false });
+        }
+        // use after free / double free where the `free` lies several call levels below the access, in a sibling
+        // call chain, or where the accessed pointer may be one of two freed objects: the CWE416/CWE415 warning then
+        // lists several call TIDs / several objects as context
+        n if n.starts_with("uaf:") => {
+            let variant = n["uaf:".len()..].to_string();
+            // helper: a function that only forwards its first parameter to function `callee` (or to extern `ext`)
+            let forward = |g: &mut Gen, name: &str, callee: Option<usize>, ext: Option<&'static str>| -> FuncG {
+                let mut ins = g.prologue(0);
+                match (callee, ext) {
+                    (Some(f), _) => ins.push(g.call_sub(f)),
+                    (None, Some(e)) => ins.push(g.call_ext(e)),
+                    _ => {}
+                }
+                let mut ep = g.epilogue(0);
+                let last = ep.pop().unwrap();
+                ins.extend(ep);
+                FuncG { name: name.to_string(), blocks: to_blocks(ins, last), shared: vec![], cconv: Some("__stdcall"), no_blocks: false }
+            };
+            let depth = if variant == "deep3" { 3 } else { 2 };
+            let mut m = g.prologue(0x30);
+            // functions: 0 main, 1..=depth release chain (last one frees), then optional extra chains
+            match variant.as_str() {
+                "sibling" => {
+                    // allocation in a callee chain (3 -> 4 -> malloc), release in another one (1 -> 2 -> free)
+                    m.push(g.mov_r32i("RDI", 0x18));
+                    m.push(g.call_sub(3));
+                }
+                _ => {
+                    m.push(g.mov_r32i("RDI", 0x10));
+                    m.push(g.call_ext("malloc"));
+                }
+            }
+            m.push(g.mov_rr("R12", "RAX"));
+            if variant == "twoobjects" {
+                m.push(g.mov_r32i("RDI", 0x20));
+                m.push(g.call_ext("malloc"));
+                m.push(g.mov_rr("R13", "RAX"));
+            }
+            m.push(g.mov_rr("RDI", "R12"));
+            m.push(g.call_sub(1));
+            if variant == "twoobjects" {
+                m.push(g.mov_rr("RDI", "R13"));
+                m.push(g.call_sub(3));
+                // R14 = one of the two (freed) objects
+                m.push(g.mov_rr("R14", "R12"));
+                m.push(g.test(reg("RBX", 4), reg("RBX", 4)));
+                let t = g.term(Tm::Jcc(V::Reg("ZF", 1), 0));
+                let mut blocks = to_blocks(m, t);
+                let jb = blocks.len() - 1;
+                let mut alt = vec![g.mov_rr("R14", "R13")];
+                let mut f = g.term(Tm::Fall);
+                f.len = 0;
+                alt.push(f);
+                blocks.push(BlockG { ins: alt, suffix: None });
+                let join = blocks.len();
+                if let Some(Tm::Jcc(_, t)) = blocks[jb].ins.last_mut().and_then(|i| i.term.as_mut()) {
+                    *t = join;
+                }
+                let mut tail = vec![g.load("RAX", 8, "R14", 0), g.store("R14", 8, V::Const(7, 8)), g.mov_r32i("RAX", 0)];
+                tail.extend(g.epilogue(0x30));
+                blocks.push(BlockG { ins: tail, suffix: None });
+                funcs.push(FuncG { name: "main".into(), blocks, shared: vec![], cconv: Some("__stdcall"), no_blocks: false });
+                funcs.push(forward(&mut g, "release_a", Some(2), None));
+                funcs.push(forward(&mut g, "release_a_inner", None, Some("free")));
+                funcs.push(forward(&mut g, "release_b", Some(4), None));
+                funcs.push(forward(&mut g, "release_b_inner", None, Some("free")));
+            } else {
+                if variant == "double" {
+                    m.push(g.mov_rr("RDI", "R12"));
+                    m.push(g.call_ext("free"));
+                } else {
+                    m.push(g.load("RAX", 8, "R12", 0));
+                    m.push(g.store("R12", 8, V::Const(7, 8)));
+                }
+                m.push(g.mov_r32i("RAX", 0));
+                let mut ep = g.epilogue(0x30);
+                let last = ep.pop().unwrap();
+                m.extend(ep);
+                funcs.push(FuncG { name: "main".into(), blocks: to_blocks(m, last), shared: vec![], cconv: Some("__stdcall"), no_blocks: false });
+                if depth == 3 {
+                    funcs.push(forward(&mut g, "outer", Some(2), None));
+                    funcs.push(forward(&mut g, "middle", Some(3), None));
+                    funcs.push(forward(&mut g, "inner", None, Some("free")));
+                } else {
+                    funcs.push(forward(&mut g, "outer", Some(2), None));
+                    funcs.push(forward(&mut g, "inner", None, Some("free")));
+                    if variant == "sibling" {
+                        funcs.push(forward(&mut g, "make", Some(4), None));
+                        funcs.push(forward(&mut g, "make_inner", None, Some("malloc")));
+                    }
+                }
+            }
         }
         // one jump kind with a label that points to an address without block / function
         n if n.starts_with("dangling:") => {
